@@ -139,6 +139,24 @@ pub fn take_triple(t: (Uniq, &str, Uniq)) -> String {
     x
 }
 
+/// an argument type whose Debug impl is USER CODE with a visible effect: it counts its invocations (and prints like u8)
+pub struct A8(pub u8);
+pub static DEBUG_RUNS: std::sync::atomic::AtomicUsize = std::sync::atomic::AtomicUsize::new(0);
+impl std::fmt::Debug for A8 {
+    fn fmt(&self, f: &mut std::fmt::Formatter<'_>) -> std::fmt::Result {
+        DEBUG_RUNS.fetch_add(1, SeqCst);
+        write!(f, "{}", self.0)
+    }
+}
+#[unimock(api=DBMock, unmock_with=[real_db])]
+pub trait DB {
+    fn db(&self, a: A8) -> Val;
+}
+pub fn real_db(_: &impl DB, a: A8) -> Val {
+    user_panic_if_armed(1, "user:real");
+    Val::new(format!("real40({})", a.0))
+}
+
 /// two traits of one module with a SAME-NAMED method-generic method: two distinct MockFns
 #[unimock(api=R1Mock)]
 pub trait R1 {
